@@ -245,3 +245,40 @@ func dumpNetOpt(n *acmelib.Network, loaded bool) (*SX, *collector) {
 	}
 	return T("net", dEnt(n), buses, builders, nodes, types, units, enums, attrs), c
 }
+
+// dumpReceived projects the converse of the receiver relation: which interfaces (node entity id, number) list
+// which messages as received, over the interfaces of every node the walk met.  The loader registers it at every
+// AddReceiver call; the model side derives the expected relation from the receivers of the saved messages.
+func dumpReceived(col *collector) *SX { return dumpReceivedOpt(col, false) }
+
+// dumpReceivedOpt with consistentOnly keeps the pairs the message confirms (it lists that interface as receiver):
+// the part of the relation that a save carries (the other pairs are finding D22).
+func dumpReceivedOpt(col *collector, consistentOnly bool) *SX {
+	out := T("received")
+	inNet := map[*acmelib.Message]bool{}
+	for _, m := range col.msgs {
+		inNet[m] = true
+	}
+	for _, nd := range col.nodes {
+		for _, ni := range nd.Interfaces() {
+			for _, m := range ni.ReceivedMessages() {
+				if !inNet[m] {
+					continue // a message that is not (or no longer) part of the network
+				}
+				if consistentOnly {
+					ok := false
+					for _, rc := range m.Receivers() {
+						if rc == ni {
+							ok = true
+						}
+					}
+					if !ok {
+						continue
+					}
+				}
+				out.List = append(out.List, T("rm", S(nd.EntityID().String()), I(int64(ni.Number())), S(m.EntityID().String())))
+			}
+		}
+	}
+	return out
+}
